@@ -3,7 +3,7 @@ import json, os
 from .lib.match import *
 from .lib.facts import VERIF
 
-SELECT = r'^bluetoe::link_layer::(link_layer::(handle_ll_control_data|transmit_pending_control_pdus|timeout|end_event|remote_versions_request|phy_update_request)|details::link_layer_security_impl::impl::handle_encryption_pdus|details::phy_update_request_impl::handle_phy_request)$'
+SELECT = r'^bluetoe::link_layer::(link_layer::(handle_ll_control_data|transmit_pending_control_pdus|timeout|end_event|remote_versions_request|phy_update_request)|details::link_layer_security_impl::impl::handle_encryption_pdus|details::phy_update_request_impl::handle_phy_request|details::desired_connection_parameters_base::parse_and_check_params)$'
 UNITS = lambda u: u in ('w_inst_ll',) or u.startswith('t_link_layer_ll_control') or u.startswith('t_link_layer_ll_enc') or u.startswith('t_link_layer_ll_phy') or u.startswith('t_link_layer_ll_remote')
 LL = 'bluetoe::link_layer::link_layer::'
 META = {
@@ -97,6 +97,18 @@ def run(chk, facts, tier):
             chk.instance('procedure-timeout-cleared-by-answer', fn, 'procedure_timeout_ = delta_time() at line %d' % st.l, not feasible,
                          '' if not feasible else 'the response timeout is disarmed by an %s that names an unrelated request (e.g. opcode 0x%02x): a peripheral-initiated procedure that is never answered no longer ends the connection after 40 s' % ('/'.join(feasible), UNRELATED),
                          node=st, key='clear@%s' % ('reject branch %d' % n))
+    chk.rule('param-request-accepted-range', 'parse_and_check_params (LL_CONNECTION_PARAM_REQ) accepts exactly the legal range: interval 5..3200 with min <= max and latency 0..499; everything inside gets the response, not a reject', floor=1)
+    for fn in variants(facts, 'bluetoe::link_layer::details::desired_connection_parameters_base::parse_and_check_params', chk):
+        acc = [r for r in fn.returns() if cval(ret_value(r)) == 1]
+        ok, why = len(acc) == 1, 'expected one accepting return'
+        if ok:
+            ats = guard_atoms(fn, acc[0])
+            fld = lambda name: (lambda n: strip_casts(n).k == 'MemberExpr' and strip_casts(n).n == name)
+            lb_min, ub_max, ub_lat = lower_bound(ats, fld('min_interval')), upper_bound(ats, fld('max_interval')), upper_bound(ats, fld('latency'))
+            ordered = any(not isinstance(l, int) and not isinstance(r, int) and ((strip_casts(l).n == 'max_interval' and strip_casts(r).n == 'min_interval' and op == '>=') or (strip_casts(l).n == 'min_interval' and strip_casts(r).n == 'max_interval' and op == '<=')) for l, op, r in ats)
+            ok = (lb_min, ub_max, ub_lat) == (5, 3200, 499) and ordered
+            why = 'accepted range is interval >= %s, <= %s, latency <= %s, min <= max: %s; the specification allows 5..3200 and latency up to 499 - a legal request is rejected (or an illegal one answered)' % (lb_min, ub_max, ub_lat, ordered)
+        chk.instance('param-request-accepted-range', fn, 'accepts interval 5..3200, min <= max, latency <= 499', ok, '' if ok else why, key='range')
     handlers = []
     for q in (LL + 'handle_ll_control_data', 'bluetoe::link_layer::details::link_layer_security_impl::impl::handle_encryption_pdus', 'bluetoe::link_layer::details::phy_update_request_impl::handle_phy_request'):
         handlers += [f for f in variants(facts, q, chk)]
